@@ -931,6 +931,7 @@ func (b *BaseStore) AddOperation(ctx context.Context, op operation.Operation, on
 		return nil, fmt.Errorf("unable to marshal entry: %w", err)
 	}
 
+	verifhook.Point("store.before_persist", b.id, e.GetHash().String())
 	err = b.Cache().Put(ctx, datastore.NewKey("_localHeads"), marshaledEntry)
 	if err != nil {
 		return nil, fmt.Errorf("unable to add data to cache: %w", err)
